@@ -163,6 +163,10 @@ func (e *Env) fsPath(p string) string {
 // scenario. With a single scenario the process-level observations (exit
 // status, stdout, stderr) belong to it.
 func (e *Env) Exec(scs []*scen.Scenario, timeout time.Duration) []*Run {
+	return e.execWith(scs, timeout, nil)
+}
+
+func (e *Env) execWith(scs []*scen.Scenario, timeout time.Duration, extraEnv []string) []*Run {
 	runs := make([]*Run, len(scs))
 	for i := range runs {
 		runs[i] = &Run{ExitCode: -1}
@@ -232,6 +236,7 @@ func (e *Env) Exec(scs []*scen.Scenario, timeout time.Duration) []*Run {
 	if first.World.Race {
 		cmd.Env = append(cmd.Env, "GORACE=halt_on_error=0 history_size=5", "GOMAXPROCS=1")
 	}
+	cmd.Env = append(cmd.Env, extraEnv...)
 	cmd.Stdin = &in
 	var so, se bytes.Buffer
 	cmd.Stdout = &so
